@@ -157,10 +157,25 @@ def check_copies(ctx, inst, case):
     _check_copies(ctx, read, dict(case, read_from_text=True))
 
 
+def has_fold(x):
+    import datetime
+    from ofxtools.models.base import Aggregate
+
+    if isinstance(x, (datetime.datetime, datetime.time)):
+        return bool(x.fold)
+    if isinstance(x, Aggregate):
+        return any(has_fold(v) for v in x.__dict__.values()) or any(has_fold(m) for m in list.__iter__(x))
+    return False
+
+
 def _check_copies(ctx, inst, case):
     s0 = modelwalk.snap(inst, exact=True)
     ops = [("copy", copy.copy), ("deepcopy", copy.deepcopy)] + [(f"pickle{p}", (lambda x, p=p: pickle.loads(pickle.dumps(x, protocol=p)))) for p in (2, 3, 4, 5)]
+    folded = has_fold(inst)
     for opname, fn in ops:
+        if folded and opname in ("pickle2", "pickle3"):
+            ctx.count("unspecified_pickle_protocol_below_4_loses_fold")  # CPython: datetime.fold is only pickled from protocol 4 on
+            continue
         ctx.ev()
         ctx.count("copies_judged")
         try:
